@@ -8,6 +8,7 @@ import (
 	"strings"
 
 	"github.com/zclconf/go-cty/cty"
+	"golang.org/x/text/unicode/norm"
 
 	"verif/harness/mon"
 )
@@ -140,7 +141,7 @@ func enumerate(root cty.Value) []member {
 		if len(kids) == 0 {
 			return
 		}
-		nanc := cty.NewValueMarks()
+		nanc := cty.ValueMarks{}
 		for k := range anc {
 			nanc[k] = struct{}{}
 		}
@@ -155,8 +156,15 @@ func enumerate(root cty.Value) []member {
 			rec(k.val, canon+k.st.canon(), canon, st, nanc, underSet || k.st.kind == skSet, pk)
 		}
 	}
-	rec(root, rootCanon, "", nil, cty.NewValueMarks(), false, "root")
+	rec(root, rootCanon, "", nil, cty.ValueMarks{}, false, "root")
 	return out
+}
+
+func attrTypes(ty cty.Type) map[string]cty.Type {
+	if !ty.IsObjectType() {
+		return nil
+	}
+	return ty.AttributeTypes()
 }
 
 // wholeIndex interprets a key as a list/tuple position: a known, non-null,
@@ -199,11 +207,12 @@ func libCanon(root cty.Value, p cty.Path) (canon string, ambiguous bool, err err
 		ty := u.Type()
 		switch st := raw.(type) {
 		case cty.GetAttrStep:
-			if !ty.IsObjectType() || !ty.HasAttribute(st.Name) {
+			name := norm.NFC.String(st.Name) // attribute names are NFC-normalised
+			if _, has := attrTypes(ty)[name]; !has {
 				return "", false, fmt.Errorf("step %d: GetAttrStep %q on %s", i, st.Name, ty.FriendlyName())
 			}
-			canon += mstep{kind: skAttr, name: st.Name}.canon()
-			cur = u.GetAttr(st.Name)
+			canon += mstep{kind: skAttr, name: name}.canon()
+			cur = u.GetAttr(name)
 		case cty.IndexStep:
 			switch {
 			case ty.IsListType() || ty.IsTupleType():
@@ -310,7 +319,7 @@ func marksText(m cty.ValueMarks) string {
 }
 
 func unionMarks(ms ...cty.ValueMarks) cty.ValueMarks {
-	out := cty.NewValueMarks()
+	out := cty.ValueMarks{}
 	for _, m := range ms {
 		for k := range m {
 			out[k] = struct{}{}
